@@ -131,7 +131,7 @@ pub fn gen_escape_text(src: &mut Src) -> String {
     const PIECES: &[&str] = &[
         "\\n", "\\t", "\\r", "\\\\", "\\\"", "\\'", "\\0", "\\x41", "\\x7F", "\\x80", "\\xFF", "\\xZZ", "\\x4", "\\x",
         "\\u{41}", "\\u{}", "\\u{D800}", "\\u{DFFF}", "\\u{10FFFF}", "\\u{110000}", "\\u{1234567}", "\\u{_1}", "\\u{1_0}",
-        "\\u{zz}", "\\u{41", "\\u{", "\\u", "\\q", "\\é", "\\", "é", "€", "😀", "\u{feff}", "a", "0", "1", "_", " ", "\n", "\t",
+        "\\u{zz}", "\\u{41", "\\u{", "\\u", "\\q", "\\u{100000000}", "\\u{FFFFFFFFFFFF}", "\\u{00000000000041}", "\\u{9999999999999999999}", "\\x4141414141", "\\é", "\\", "é", "€", "😀", "\u{feff}", "a", "0", "1", "_", " ", "\n", "\t",
         "{", "}", "/*", "//", "\r",
     ];
     let mut s = String::new();
